@@ -112,4 +112,16 @@ def refineResult [Add α] [Sub α] [Mul α] [Div α] [HasFloor α] (L : Layout) 
   let out := finish L constraints (promote dx c) x adjust
   wrapPos axes (out.take L.dim) ++ out.drop L.dim
 
+/-! ### the fitted region
+
+  mask = droplet._get_phase_field(grid, dtype=bool)
+  dilation_iterations = 1 + int(2 * droplet.interface_width)          `fitIterations`
+  mask = ndimage.binary_dilation(mask, iterations=dilation_iterations)   (scipy: contract) -/
+
+/-- number of dilation steps (in CELLS) for an interface width `w ≥ 0` -/
+def fitIterations (w : Rat) : Nat := 1 + (2 * w).floor.toNat
+
+/-- the same at `Float` (the driver) -/
+def fitIterationsF (w : Float) : Nat := 1 + (Float.floor (2 * w)).toUInt64.toNat
+
 end DV.Refine
